@@ -137,7 +137,7 @@ def ruleOf (s : State) (l : Label) : String :=
   | .rdLoad x => "rdLoad." ++ (match x with | .empty => "empty" | .cbs => "cbs" | .result => "result")
   | .ready b =>
       (match s.pc with
-       | .rdyL x => if b then (if x = .cbs then "ready.true.d3" else "ready.true") else "ready.false"
+       | .rdyL x => if b then "ready.true" else (if x = .cbs then "ready.false.cbs" else "ready.false")
        | _ => if b then "mready.true" else "mready.false")
   | .regLoad _ x => (match s.todo with
       | op :: _ => match op.cells[(match s.pc with | .reg p => p | _ => 0)]? with
@@ -210,10 +210,10 @@ def stepD (d : DState) (ts : List String) : Option (Option (DState × String)) :
             some (some ({ d1 with comps := setAt d1.comps i s' }, joinRules rs))
   match ts with
   -- ---- atomic operations on an awaited word
-  | [_, "A", obj, "xchg", _, "result", "->", _] =>
-      match widOf obj with
-      | some j => some (allTake d (.pXchg j) j)
-      | none => none
+  | [t, "A", obj, "xchg", _, "result", "->", _] =>
+      match widOf obj, pidOf t with
+      | some j, some _ => some (allTake d (.pXchg j) j)
+      | _, _ => none                      -- the harness' clean-up (a Task that was only Await()ed is cancelled at the end)
   | [t, "A", obj, "load", _, "-", "->", x] =>
       match widOf obj, cidOf t with
       | some j, some i =>
@@ -222,6 +222,11 @@ def stepD (d : DState) (ts : List String) : Option (Option (DState × String)) :
             match s.pc, s.todo with
             | .rdy, op :: _ => if op.cells[0]? = some j ∧ cls = (s.word j).obs then apSeq s [.rdLoad cls] else none
             | .reg p, op :: _ => if op.cells[p]? = some j ∧ cls = (s.word j).obs then apSeq s [.regLoad p cls] else none
+            -- the FIBER backend realises a spurious failure of compare_exchange_weak as `expected = load(failure order)`
+            | .cas p, op :: _ =>
+                if op.cells[p]? = some j ∧ cls = (s.word j).obs ∧ (s.w.cell j).shared then
+                  (if cls = .result then apSeq s [.cas p .fail] else apSeq s [.cas p .retry])
+                else none
             | _, _ => some (s, ["-"])      -- a check of the harness between two co_awaits (Ready(), Get())
       | some _, none => none              -- loads by the subscriber / the harness' clean-up
       | none, some i =>
@@ -251,7 +256,7 @@ def stepD (d : DState) (ts : List String) : Option (Option (DState × String)) :
           else if op = "store" then
             match cidOf t with
             | some i => own i fun s => apSeq s [.tstore]
-            | none => some none
+            | none => none
           else some none
       | none =>
           match cntOf obj with
